@@ -43,6 +43,11 @@ func (state *singleRateLimitState) TryToIncrement(
 ) CurrentLimitState {
 	state.mutex.Lock()
 	defer state.mutex.Unlock()
+	if state.windowData.WindowSize != windowData.WindowSize {
+		// A changed window size moves the grid: the stored window end belongs
+		// to the old grid, so start counting afresh in the current new window.
+		state.windowEndTime = epochTime
+	}
 	state.windowData = windowData
 	state.ensureWindowIsUpdated()
 
